@@ -90,10 +90,10 @@ def ck_lines(kind, a='a'):
     return {
         'plain': ["%s = 'x'" % a],
         'func': ["def %s(self): return 0" % a],
-        'prop': ["@property", "def %s(self): LOG.append('prop'); return 1.5" % a],
-        'propann': ["@property", "def %s(self) -> bytes: LOG.append('prop'); return b''" % a],
-        'ddesc': ["%s = DD('dget', 1j)" % a],
-        'nddesc': ["%s = ND('ndget', bytearray())" % a],
+        'prop': ["@property", "def %s(self): LOG.append('prop@%s'); return 1.5" % (a, a)],
+        'propann': ["@property", "def %s(self) -> bytes: LOG.append('prop@%s'); return b''" % (a, a)],
+        'ddesc': ["%s = DD('dget@%s', 1j)" % (a, a)],
+        'nddesc': ["%s = ND('ndget@%s', bytearray())" % (a, a)],
         'setonly': ["%s = SO()" % a],
         'static': ["@staticmethod", "def %s(): return 0" % a],
         'clsm': ["@classmethod", "def %s(cls): return 0" % a],
@@ -105,9 +105,9 @@ def mk_lines(kind, a='a'):
     return {
         'plain': ["%s = frozenset()" % a],
         'func': ["def %s(cls): return 0" % a],
-        'prop': ["@property", "def %s(cls): LOG.append('mprop'); return (1,)" % a],
-        'ddesc': ["%s = DD('mdget', {1})" % a],
-        'nddesc': ["%s = ND('mndget', {})" % a],
+        'prop': ["@property", "def %s(cls): LOG.append('mprop@%s'); return (1,)" % (a, a)],
+        'ddesc': ["%s = DD('mdget@%s', {1})" % (a, a)],
+        'nddesc': ["%s = ND('mndget@%s', {})" % (a, a)],
     }[kind]
 
 
@@ -211,6 +211,17 @@ VALNAMES = {'int', 'str', 'float', 'bytes', 'complex', 'bytearray', 'list', 'fro
 DECOY = 2j
 
 
+def base_tags(log, attr=None):
+    """Tags are 'name' or 'name@attribute'; attr=None keeps all, else only those of this attribute
+    (and, with attr='', only the attribute-less protocol tags)."""
+    out = set()
+    for t in log:
+        n, _, a = t.partition('@')
+        if attr is None or a == attr:
+            out.add(n)
+    return out
+
+
 def leaf_obj(kind, g):
     return {'int': 7, 'str': 's', 'float': 1.5, 'none': None, 'bytes': b'', 'list': [1], 'dict': {'z': 1},
             'tuple': (1,), 'inst': g['Q'](), 'func': g['fn'], 'cls': g['Q']}[kind]
@@ -276,7 +287,8 @@ def run_query(code, meth, namespaces, unsafe, log, form, target=None, attr='a'):
             out['exc'] = crash_key(e)
         except Exception as e:  # internal error of jedi: blocked (C01 decides totality)
             out['exc'] = crash_key(e)
-        out['log'] = sorted(set(log))
+        out['rawlog'] = sorted(set(log))
+        out['log'] = sorted(base_tags(log))
     finally:
         settings.allow_unsafe_interpreter_executions = old
         del log[:]
@@ -320,7 +332,7 @@ def replay_case(case):
         except AttributeError:
             orc['where'] = False
             orc['val'] = 'none'
-        orc['exec'] = sorted(set(log) & JUDGED)
+        orc['exec'] = sorted(base_tags(log) & JUDGED)
         orc['indir'] = 'a' in dir(obj)
         if c['model'] == 'proto':
             k = g['k']
@@ -330,7 +342,7 @@ def replay_case(case):
                     fn()
                 except TypeError:
                     pass
-                orc['py_' + nm] = sorted(set(log) & JUDGED)
+                orc['py_' + nm] = sorted(base_tags(log) & JUDGED)
         del log[:]
         out['oracle'] = orc
         out['o'] = run_query(code, meth, ns, unsafe, log, c['form'], target=[obj])
@@ -530,60 +542,73 @@ def random_graph(arg):
             form = rng.choice(ATTR_FORMS if kind == 'attr' else PROTO_FORMS)
             tmpl, meth = FORMS[form]
             code = (tmpl % ('x' + expr)).replace('A', a)
-            del log[:]
-            orc = {}
-            try:
-                v = getattr(obj, a)
-                orc.update(where=True, val=type(v).__name__ if type(v).__name__ in VALNAMES else 'other',
-                           desc=describe(v))
-            except AttributeError:
-                orc.update(where=False, val='none')
-            orc['exec'] = sorted(set(log) & JUDGED)
             o = run_query(code, meth, [{'y': 1}, {'x': root}], mode == 'unsafe', log, form, target=[obj], attr=a)
-            c = dict(model=kind, recv=recv, inst=sh['inst'] and recv == 'inst', ck=sh['ck'], cw=sh['cw'], mk=sh['mk'],
-                     hook=hook, base=base, protos=protos if kind == 'proto' else [], path=[], leaf='int',
-                     # the spec's src is the representation of the receiver: a MixedObject needs the class
-                     # source AND a route through attributes only (container items are bare CompiledValues)
-                     src=where if all(h == 'inst' for h in holders) else 'exec', mode=mode, form=form)
-            if kind == 'proto':   # the protocol events carry no attribute
-                c.update(inst=False, ck='none', cw='own', mk='none')
-            ob = {'exec': sorted(set(o.get('log', [])) & JUDGED),
-                  'names_ok': (not o['missing']) if 'missing' in o else None}
+            if 'exc' in o:
+                blocked.append(o['exc'])
+                continue
+            # `r.` concerns every attribute of the class: one event per attribute, each with the tags
+            # of that attribute; a query on `r.A` owns every tag that was logged
+            if kind == 'attr' and form in ('dot', 'dot_type'):
+                targets = [(b, bs, base_tags(o['rawlog'], b) | (base_tags(o['rawlog'], '') if i == 0 else set()))
+                           for i, (b, bs) in enumerate(attrs)]
+            else:
+                targets = [(a, sh, base_tags(o['rawlog']))]
+            for b, bs, tags in targets:
+                del log[:]
+                orc = {}
+                try:
+                    v = getattr(obj, b)
+                    orc.update(where=True, val=type(v).__name__ if type(v).__name__ in VALNAMES else 'other',
+                               desc=describe(v))
+                except AttributeError:
+                    orc.update(where=False, val='none')
+                orc['exec'] = sorted(base_tags(log) & JUDGED)
+                del log[:]
+                c = dict(model=kind, recv=recv, inst=bs['inst'] and recv == 'inst', ck=bs['ck'], cw=bs['cw'],
+                         mk=bs['mk'], hook=hook, base=base, protos=protos if kind == 'proto' else [], path=[],
+                         leaf='int',
+                         # the spec's src is the representation of the receiver: a MixedObject needs the class
+                         # source AND a route through attributes only (container items are bare CompiledValues)
+                         src=where if all(h == 'inst' for h in holders) else 'exec', mode=mode, form=form)
+                if kind == 'proto':   # the protocol events carry no attribute
+                    c.update(inst=False, ck='none', cw='own', mk='none')
+                ob = {'exec': sorted(tags & JUDGED),
+                      'names_ok': (not o['missing']) if 'missing' in o else None}
+                ev = event(c, o, orc, ob)
+                if kind == 'proto':
+                    ev['py_known'] = False
+                events.append(ev)
+                srcs.append({'code': o['code'], 'query': o['meth'], 'mode': mode, 'log': o['rawlog'],
+                             'obs': o.get('obs'), 'missing': o.get('missing'), 'shape': c, 'attribute': b})
+            continue
         if 'exc' in o:
             blocked.append(o['exc'])
             continue
-        ev = event(c, o, orc, ob)
-        if kind == 'proto':
-            ev['py_known'] = False
-        events.append(ev)
+        events.append(event(c, o, orc, ob))
         srcs.append({'code': o['code'], 'query': o['meth'], 'mode': mode, 'log': o['log'], 'obs': o.get('obs'),
                      'missing': o.get('missing'), 'shape': c})
     return {'events': events, 'blocked': blocked, 'srcs': srcs, 'source': src, 'where': where}
 
 
 # ---------------------------------------------------------------- TLC helpers
-def emit_parallel(ctx, maxpath, nproc, take, label):
-    """Case emission sliced over nproc TLC processes (each workers=1: PrintT must not interleave)."""
-    res = [None] * len(take)
-    err = []
+def run_jobs(jobs, limit=8):
+    """Run independent TLC jobs concurrently: {name: (cfg, run_tlc kwargs)} -> {name: TLCResult}."""
+    out, err = {}, []
+    sem = threading.Semaphore(limit)
 
-    def one(i, rem):
-        try:
-            cfg = write_cfg(ctx, 'emit_%d.cfg' % rem, maxpath, nproc, rem, [], 'CONSTRAINT Emit')
-            res[i] = run_tlc('InterpSafe', cfg, workers=1, timeout=1500)
-        except Exception as e:  # noqa
-            err.append(e)
-    th = [threading.Thread(target=one, args=(i, rem)) for i, rem in enumerate(take)]
+    def one(name, cfg, kw):
+        with sem:
+            try:
+                out[name] = run_tlc('InterpSafe', cfg, timeout=2400, **kw)
+            except BaseException as e:  # noqa
+                err.append(e)
+    th = [threading.Thread(target=one, args=(n, c, k)) for n, (c, k) in jobs.items()]
     for t in th:
         t.start()
     for t in th:
         t.join()
     if err:
         raise err[0]
-    out = []
-    for rem, r in zip(take, res):
-        ctx.add_tlc(r, '%s residue %d mod %d' % (label, rem, nproc))
-        out += cases(r)
     return out
 
 
@@ -600,13 +625,32 @@ def run(ctx):
     os.environ['C13_TMP'] = ctx.tmp
     sys.setrecursionlimit(3000)
     maxpath = 3 if quick else 4
+    # C13_FIXED=D1,D3|all: model these deviations as repaired (for checking a patched tree)
+    fx = os.environ.get('C13_FIXED', '')
+    fixed = ALLDEV if fx == 'all' else [d for d in fx.split(',') if d]
+    if any(d not in ALLDEV for d in fixed):
+        raise MachineryError('C13_FIXED: unknown deviation in %r' % fx)
+    ctx.coverage['deviations_modelled_as_repaired'] = fixed
     body = '\n'.join('INVARIANT ' + i for i in (
         'OnlyKnownDeviations', 'RepairedMeetsReference', 'StaticLookupSound', 'StaticLookupComplete',
         'UnsafeReflectsLive'))
 
+    # All TLC runs of legs 1-3 are independent: run them concurrently (at most 8 JVMs at a time).
+    strict = 'INVARIANT SafeNoExec\nINVARIANT InferPlainExact\nINVARIANT NamesSupersetDir'
+    nproc = 12
+    rems = [ctx.seed % nproc] if quick else list(range(nproc))
+    jobs = {'mc': (write_cfg(ctx, 'mc.cfg', maxpath, 1, 0, fixed, body), dict(workers=8, coverage=True)),
+            'fixed': (write_cfg(ctx, 'mc_fixed.cfg', maxpath, 1, 0, ALLDEV, strict + '\n' + body), dict(workers=8))}
+    for inv in ('SafeNoExec', 'InferPlainExact', 'NamesSupersetDir'):
+        jobs['strict_' + inv] = (write_cfg(ctx, 'strict_%s.cfg' % inv, maxpath, 1, 0, fixed, 'INVARIANT ' + inv),
+                                 dict(workers=4, expect_violation=True))
+    for rem in rems:
+        jobs['emit_%d' % rem] = (write_cfg(ctx, 'emit_%d.cfg' % rem, maxpath, nproc, rem, fixed, 'CONSTRAINT Emit'),
+                                 dict(workers=1))
+    out = run_jobs(jobs)
+
     # 1. Design |= Reference, exhaustive: tree as it is (modulo named deviations)
-    res = run_tlc('InterpSafe', write_cfg(ctx, 'mc.cfg', maxpath, 1, 0, [], body), workers=16, timeout=1500,
-                  coverage=True)
+    res = out['mc']
     ctx.add_tlc(res, 'Design|=Reference modulo named deviations, exhaustive MaxPath=%d Fixed={}' % maxpath)
     if res.violated:
         raise MachineryError('InterpSafe.tla: %s violated: a breach of the Reference that is not one of the named '
@@ -618,20 +662,16 @@ def run(ctx):
     if dead or 'Set' not in res.coverage:
         raise MachineryError('vacuity: actions never taken: %s (coverage parsed: %s)' % (dead, sorted(res.coverage)))
     # the repaired Design meets the strict Reference
-    strict = 'INVARIANT SafeNoExec\nINVARIANT InferPlainExact\nINVARIANT NamesSupersetDir'
-    res = run_tlc('InterpSafe', write_cfg(ctx, 'mc_fixed.cfg', maxpath, 1, 0, ALLDEV, strict + '\n' + body),
-                  workers=16, timeout=1500)
+    res = out['fixed']
     ctx.add_tlc(res, 'repaired Design (Fixed=AllDev) |= strict Reference, exhaustive')
     if res.violated:
         raise MachineryError('repaired Design violates %s: %s' % (res.violated, res.trace[-1:]))
     ctx.coverage['exhaustive'] = True
-    ctx.log('exhaustive runs done')
 
     # 2. strict invariants on the tree as it is: counterexamples are replayed on the real code
     cex = []
     for inv in ('SafeNoExec', 'InferPlainExact', 'NamesSupersetDir'):
-        res = run_tlc('InterpSafe', write_cfg(ctx, 'strict_%s.cfg' % inv, maxpath, 1, 0, [], 'INVARIANT ' + inv),
-                      workers=16, timeout=1500, expect_violation=True)
+        res = out['strict_' + inv]
         ctx.add_tlc(res, 'strict %s on the unchanged Design (counterexample expected)' % inv)
         if not res.violated:
             ctx.notes.append('strict invariant %s holds in the Design as modelled (Fixed={})' % inv)
@@ -640,26 +680,26 @@ def run(ctx):
         c = {k: (sorted(v[1]) if isinstance(v, tuple) and v[0] == 'set' else v) for k, v in st.items()}
         cex.append((inv, c))
     ctx.coverage['tlc_counterexamples'] = [{'invariant': i, 'case': c} for i, c in cex]
-    ctx.log('strict runs done: %d counterexamples' % len(cex))
+    ctx.log('TLC runs done: %d counterexamples of the strict invariants' % len(cex))
 
     # 3. emitted cases -> live objects -> Interpreter (spec -> code)
-    nproc = 12
-    if quick:
-        rems = sorted(set((ctx.seed + 5 * i) % nproc for i in range(2)))
-    else:
-        rems = list(range(nproc))
-    cs = emit_parallel(ctx, maxpath, nproc, rems, 'case emission')
+    cs = []
+    for rem in rems:
+        ctx.add_tlc(out['emit_%d' % rem], 'case emission residue %d mod %d' % (rem, nproc))
+        cs += cases(out['emit_%d' % rem])
     for x in cs:
         x['c']['protos'] = sorted(x['c']['protos'])
     ctx.log('emitted %d cases' % len(cs))
-    if len(cs) < (5000 if quick else 60000):
+    if len(cs) < (3000 if quick else 60000):
         raise MachineryError('too few cases emitted: %d' % len(cs))
     # make sure the TLC counterexamples are among the replayed cases
-    if cex:
-        full = emit_cex(ctx, maxpath, cex)
+    have = [x['c'] for x in cs]
+    todo = [(i, c) for i, c in cex if c not in have]
+    if todo:
+        full = emit_cex(ctx, maxpath, todo, fixed)
         for x in full:
             x['c']['protos'] = sorted(x['c']['protos'])
-        cs += [x for x in full if x['c'] not in [y['c'] for y in cs[-0:0]]]
+        cs += full
     ctx.log('replaying %d TLC cases' % len(cs))
     results = jutil.pmap(replay_case, cs, chunksize=64)
     jutil.check_worker_errors(results)
@@ -702,13 +742,16 @@ def run(ctx):
         idx = [i for i, r in enumerate(trace_src) if is_breach(r)]
         rest = [i for i, r in enumerate(trace_src) if not is_breach(r)]
         ctx.rng.shuffle(rest)
-        idx = sorted(idx + rest[:2500])
+        idx = sorted(idx + rest[:1500])
         traces = [traces[i] for i in idx]
         trace_src = [trace_src[i] for i in idx]
     all_traces = traces + rtraces
     ctx.log('validating %d traces, %d events' % (len(all_traces), sum(map(len, all_traces))))
-    verdicts = validate_traces('Trace_InterpSafe', 'Trace_InterpSafe.cfg', all_traces, ctx, 'Trace_InterpSafe',
-                               chunk=8000)
+    tcfg = os.path.join(ctx.tmp, 'trace.cfg')
+    with open(tcfg, 'w') as f:
+        f.write('INIT TInit\nNEXT TNext\nCONSTANTS\n  MaxPath = 0\n  EmitMod = 1\n  EmitRem = 0\n  Fixed = {%s}\n'
+                'CONSTRAINT Verdict\nCHECK_DEADLOCK FALSE\n' % ', '.join('"%s"' % d for d in fixed))
+    verdicts = validate_traces('Trace_InterpSafe', tcfg, all_traces, ctx, 'Trace_InterpSafe', chunk=8000)
     nrej = 0
     for i, (v, t) in enumerate(zip(verdicts, all_traces)):
         if v['accepted']:
@@ -750,7 +793,7 @@ def run(ctx):
     b3 = copy.deepcopy(pick2[0][:1])
     b3[0]['obs'] = ['complex:instance']
     n0 = ctx.coverage['traces_validated_against_impl']
-    vs = validate_traces('Trace_InterpSafe', 'Trace_InterpSafe.cfg', [b1, b2, b3], ctx, 'binding self-test')
+    vs = validate_traces('Trace_InterpSafe', tcfg, [b1, b2, b3], ctx, 'binding self-test')
     ctx.coverage['traces_validated_against_impl'] = n0
     if any(v['accepted'] for v in vs):
         raise MachineryError('binding self-test: corrupted trace accepted %s' % vs)
@@ -786,35 +829,28 @@ def is_breach(r):
     return False
 
 
-def emit_cex(ctx, maxpath, cex):
-    """The emitted record (with prediction) of each TLC counterexample: taken from a full emission
-    restricted by residue is costly, so the prediction is recomputed by TLC for the single case."""
-    out = []
-    for i, (inv, c) in enumerate(cex):
-        mod = ctx.tmp + '/Cex%d.tla' % i
-        fields = ', '.join('%s |-> %s' % (k, tla(v, k)) for k, v in c.items())
-        with open(mod, 'w') as f:
-            f.write('---- MODULE Cex%d ----\nEXTENDS Naturals, Sequences, FiniteSets, TLC, Json\n'
-                    'CONSTANTS MaxPath, EmitMod, EmitRem, Fixed\nVARIABLES c, st\nINSTANCE InterpSafe\n'
-                    'CInit == c = [%s] /\\ st = "done"\nCNext == UNCHANGED <<c, st>>\n'
-                    'CEmit == PrintT(<<"CASE", ToJson([c |-> c, pred |-> Pred(c)])>>)\n====\n' % (i, fields))
-        for fn in ('InterpSafe.tla',):
-            dst = os.path.join(ctx.tmp, fn)
-            if not os.path.exists(dst):
-                import shutil
-                from harness.core import SPEC
-                shutil.copy(os.path.join(SPEC, fn), dst)
-        cfg = os.path.join(ctx.tmp, 'cex%d.cfg' % i)
-        with open(cfg, 'w') as f:
-            f.write('INIT CInit\nNEXT CNext\nCONSTANTS\n  MaxPath = %d\n  EmitMod = 1\n  EmitRem = 0\n  Fixed = {}\n'
-                    'CONSTRAINT CEmit\nCHECK_DEADLOCK FALSE\n' % maxpath)
-        r = run_tlc('Cex%d' % i, cfg, workers=1, timeout=300, spec_dir=ctx.tmp)
-        ctx.add_tlc(r, 'prediction for the counterexample of %s' % inv)
-        got = cases(r)
-        if len(got) != 1:
-            raise MachineryError('counterexample emission failed: %s' % r.stdout[-1500:])
-        out += got
-    return out
+def emit_cex(ctx, maxpath, cex, fixed):
+    """The emitted records (with the Design's prediction) of TLC counterexamples that are not in the
+    replayed slice: a one-off module whose initial states are exactly these cases."""
+    import shutil
+    from harness.core import SPEC
+    recs = ', '.join('[%s]' % ', '.join('%s |-> %s' % (k, tla(v, k)) for k, v in c.items()) for _, c in cex)
+    with open(os.path.join(ctx.tmp, 'Cex.tla'), 'w') as f:
+        f.write('---- MODULE Cex ----\nEXTENDS Naturals, Sequences, FiniteSets, TLC, Json\n'
+                'CONSTANTS MaxPath, EmitMod, EmitRem, Fixed\nVARIABLES c, st\nINSTANCE InterpSafe\n'
+                'CInit == c \\in {%s} /\\ st = "done"\nCNext == UNCHANGED <<c, st>>\n'
+                'CEmit == PrintT(<<"CASE", ToJson([c |-> c, pred |-> Pred(c)])>>)\n====\n' % recs)
+    shutil.copy(os.path.join(SPEC, 'InterpSafe.tla'), os.path.join(ctx.tmp, 'InterpSafe.tla'))
+    cfg = os.path.join(ctx.tmp, 'cex.cfg')
+    with open(cfg, 'w') as f:
+        f.write('INIT CInit\nNEXT CNext\nCONSTANTS\n  MaxPath = %d\n  EmitMod = 1\n  EmitRem = 0\n  Fixed = {%s}\n'
+                'CONSTRAINT CEmit\nCHECK_DEADLOCK FALSE\n' % (maxpath, ', '.join('"%s"' % d for d in fixed)))
+    r = run_tlc('Cex', cfg, workers=1, timeout=300, spec_dir=ctx.tmp)
+    ctx.add_tlc(r, 'Design prediction for the counterexamples of the strict invariants')
+    got = cases(r)
+    if len(got) != len(cex):
+        raise MachineryError('counterexample emission failed: %s' % r.stdout[-1500:])
+    return got
 
 
 def tla(v, k=None):
